@@ -36,6 +36,17 @@ Fixpoint store_set (s : store) (x : Z) (v : value) : store :=
   | (y, w) :: s' => if x =? y then (x, v) :: s' else (y, w) :: store_set s' x v
   end.
 
+(* The annotations go/types attached to the syntax are checked while running: a run that is not stuck used
+   every annotation consistently with the values it met. *)
+Definition has_ty (v : value) (t : ty) : bool :=
+  match v, t with
+  | VInt _, TInt | VStr _, TStr | VBool _, TBool => true
+  | (VNil | VErr _ | VOpaque _), (TIface | TPtr) => true
+  | _, _ => false
+  end.
+
+Definition typed (v : value) (t : ty) : eres value := if has_ty v t then EOk v else EStuck.
+
 Definition of_const (c : constv) : eres value :=
   match c with CInt z => EOk (VInt z) | CStr s => EOk (VStr s) | CBool b => EOk (VBool b) | CUnsupported => EStuck end.
 
@@ -91,20 +102,24 @@ Definition call_results_with (ev : expr -> eres value) (f : callee) (recv : opti
   match f with
   | FLen =>
       match args with
-      | [a] => let! v := ev a in match v with VStr s => EOk [VInt (len s)] | _ => EStuck end
+      | a :: _ => let! v := ev a in match ty_of a, v with TStr, VStr s => EOk [VInt (len s)] | _, _ => EStuck end
       | _ => EStuck
       end
   | FNative id _ =>
       let! r := eval_opt_with ev recv in
       let! vs := eval_list_with ev args in
       match nat_fun id (opt_list r ++ vs) with Some res => EOk res | None => ENoOracle end
-  | FUser id _ =>
+  | FUser id res =>
       match recv with
       | Some _ => EStuck
       | None =>
           let! vs := eval_list_with ev args in
           let! r := callf id vs in
-          EOk (opt_list r)
+          match r, res with
+          | None, TVoid => EOk []
+          | Some v, _ => if has_ty v res then EOk [v] else EStuck
+          | _, _ => EStuck
+          end
       end
   | FBuiltin | FUnresolved => EStuck
   end.
@@ -114,11 +129,11 @@ Variable st : store.
 Fixpoint eval (e : expr) {struct e} : eres value :=
   match e with
   | EConst _ c => of_const c
-  | EIdent x _ => if x =? name_nil then EOk VNil else match store_get st x with Some v => EOk v | None => EStuck end
+  | EIdent x t => if x =? name_nil then EOk VNil else match store_get st x with Some v => typed v t | None => EStuck end
   | EParen x => eval x
   | ENot x => let! v := eval x in match v with VBool b => EOk (VBool (negb b)) | _ => EStuck end
   | EUnaryBad | EBad => EStuck
-  | EBinary op _ x y =>
+  | EBinary op tx x y =>
       match op with
       | OLor => let! a := eval x in
                 match a with VBool true => EOk (VBool true) | VBool false => let! b := eval y in
@@ -128,32 +143,44 @@ Fixpoint eval (e : expr) {struct e} : eres value :=
                  match a with VBool false => EOk (VBool false) | VBool true => let! b := eval y in
                                                                   match b with VBool _ => EOk b | _ => EStuck end
                          | _ => EStuck end
-      | OEql => let! a := eval x in let! b := eval y in let! r := go_eq a b in EOk (VBool r)
-      | ONeq => let! a := eval x in let! b := eval y in let! r := go_eq a b in EOk (VBool (negb r))
+      | OEql | ONeq =>
+          let neg := match op with ONeq => true | _ => false end in
+          if ident_name x =? name_nil then
+            let! b := eval y in match value_is_nil b with Some r => EOk (VBool (xorb neg r)) | None => EStuck end
+          else if ident_name y =? name_nil then
+            let! a := eval x in match value_is_nil a with Some r => EOk (VBool (xorb neg r)) | None => EStuck end
+          else
+            let! a := eval x in let! b := eval y in
+            match tx, a, b with
+            | TStr, VStr p, VStr q => EOk (VBool (xorb neg (bytes_eqb p q)))
+            | TInt, VInt p, VInt q => EOk (VBool (xorb neg (p =? q)))
+            | _, _, _ => EStuck
+            end
       | OGtr | OGeq | OLss | OLeq =>
           let! a := eval x in let! b := eval y in
-          match a, b with VInt p, VInt q => int_cmp op p q | _, _ => EStuck end
+          match tx, a, b with TInt, VInt p, VInt q => int_cmp op p q | _, _, _ => EStuck end
       | OAdd => let! a := eval x in let! b := eval y in
-                match a, b with
-                | VInt p, VInt q => EOk (VInt (iadd p q))
-                | VStr p, VStr q => EOk (VStr (p ++ q))
-                | _, _ => EStuck end
+                match tx, a, b with
+                | TInt, VInt p, VInt q => EOk (VInt (iadd p q))
+                | TStr, VStr p, VStr q => EOk (VStr (p ++ q))
+                | _, _, _ => EStuck end
       | OSub => let! a := eval x in let! b := eval y in
-                match a, b with VInt p, VInt q => EOk (VInt (isub p q)) | _, _ => EStuck end
+                match tx, a, b with TInt, VInt p, VInt q => EOk (VInt (isub p q)) | _, _, _ => EStuck end
       | OBad => EStuck
       end
-  | ESlice _ x lo hi three =>
+  | ESlice tx x lo hi three =>
       if three then EStuck else
+      if negb (match lo, hi with None, None => true | _, _ => match tx with TStr => true | _ => false end end) then EStuck else
       let! s := eval x in
       let! l := eval_opt_with eval lo in
       let! h := eval_opt_with eval hi in
       go_slice s l h
-  | ECall f _ recv args =>
+  | ECall f t recv args =>
       let! rs := call_results_with eval f recv args in
-      match rs with [v] => EOk v | _ => EStuck end
-  | ESelector nid _ x =>
+      match rs with [v] => typed v t | _ => EStuck end
+  | ESelector nid t x =>
       let! v := eval x in
-      match nat_fun nid [v] with Some [r] => EOk r | Some _ => EStuck | None => ENoOracle end
+      match nat_fun nid [v] with Some [r] => typed r t | Some _ => EStuck | None => ENoOracle end
   end.
 
 Definition eval_list := eval_list_with eval.
@@ -180,7 +207,7 @@ Inductive out :=
 Fixpoint assign_all (st : store) (xs : list (Z * ty)) (vs : list value) : option store :=
   match xs, vs with
   | [], [] => Some st
-  | (x, _) :: xs', v :: vs' => assign_all (store_set st x v) xs' vs'
+    | (x, t) :: xs', v :: vs' => if has_ty v t then assign_all (store_set st x v) xs' vs' else None
   | _, _ => None
   end.
 
@@ -280,7 +307,7 @@ End Exec.
 Fixpoint bind_params (ps : list (Z * ty)) (args : list value) (st : store) : option store :=
   match ps, args with
   | [], [] => Some st
-  | (x, _) :: ps', v :: args' => bind_params ps' args' (store_set st x v)
+  | (x, t) :: ps', v :: args' => if has_ty v t then bind_params ps' args' (store_set st x v) else None
   | _, _ => None
   end.
 
@@ -300,7 +327,12 @@ Fixpoint call_sem (fuel : nat) (id : Z) (args : list value) {struct fuel} : eres
           | Some st =>
               let! o := block_with (exec nat_fun (call_sem f) f) (fd_body fd) st in
               match o with
-              | OReturn v => EOk v
+              | OReturn v =>
+                  match v, fd_results fd with
+                  | None, [] => EOk None
+                  | Some x, [t] => if has_ty x t then EOk (Some x) else EStuck
+                  | _, _ => EStuck
+                  end
               | ONormal _ => match fd_results fd with [] => EOk None | _ => EStuck end
               | OBreak _ => EStuck
               end
